@@ -1,35 +1,11 @@
-(* C17 — flat-integer interface of the model for the generic OCaml driver.
+(* C17 — flat-integer interface of the model for the generic OCaml driver (definitions in Codec.v,
+   so that Proofs_codec.v can state theorems about exactly what is extracted here).
    input  : direct paused ttl pvalid initphase rref0 createdBy nops, then nops records of 11 ints
-            kind a1..a10 (see Wire.v of this directory)
+            kind a1..a10:  0 Reconcile faultmask | 1 SetRes exists label phase node sched expired owner
+            bound needp pdone | 2 SetPod exists uid node sched ctrl | 3 SetBoundPod state | 4 Tick s | 5 Restart
    observable: per operation  nEff, nEff x (kind ok + 10 stamp ints), 14 job ints, 3 reservation ints *)
 From Coq Require Import List ZArith Bool.
 From Verif Require Import Lib.Wire C17.Model C17.Spec C17.Codec.
-Import ListNotations.
-Open Scope Z_scope.
-
-Definition run_case (inp : list Z) : list Z :=
-  let '(j0, ops) := decode inp in
-  flat_map enc_obs (observe j0 ops).
-
-(* property decision on the implementation's observable; 0 = holds, otherwise clause number
-   (9 = the observable does not parse: crash or truncated log) *)
-Definition prop_case (inp obs : list Z) : Z :=
-  let '(j0, ops) := decode inp in
-  match parse_obs j0 (length ops) obs with
-  | Some o => prop_code j0 ops o
-  | None => 9
-  end.
-
-(* non-trivial: the model run issues at least one recorded API call and the job changes in at
-   least two operations *)
-Definition nontrivial_case (inp : list Z) : bool :=
-  let '(j0, ops) := decode inp in
-  let obs := observe j0 ops in
-  negb (Nat.eqb (length (flat_map o_effs obs)) 0) && Nat.leb 2 (changes j0 obs).
-
-(* no known finding on the current tree: the same-node finding (Spec.finding_code, sig 1 of the
-   old variant) was repaired by commit 025e424, so a same-node eviction is a plain violation now *)
-Definition finding_sig (inp obs : list Z) : Z := 0.
 
 Require Extraction.
 Require Import ExtrOcamlBasic.
